@@ -286,7 +286,8 @@ def headers(project='P1', admin=False, user='u1'):
     return {
         'X-Project-Id': project,
         'X-User-Id': user,
-        'X-Roles': 'admin' if admin else 'member',
+        # (a role that merely contains the word is not the admin role)
+        'X-Roles': 'admin' if admin else 'member,ResellerAdmin',
         'X-Identity-Status': 'Confirmed',
     }
 
